@@ -6,17 +6,16 @@
    proofs in Proofs/Device*.v.  `valid_op` = client commands are the nine targeted ones, dev_initial_connect happens once (HInit);
    `cfg_ok` = what the parser guarantees (login script exists: F14; blocks non-empty; formats %s/%%-only) + formatted send strings fit 64 KiB. *)
 
-(* OPEN *) (* C05_noninterference: "over ANY op list, feeding / closing / re-planning device j changes nothing about device i's trajectory and
-   events (i <> j)".  PARTIAL: proved are C05_other_device_untouched (operations on j's far end do not touch i), C05_dev_local (a pass is a
-   fold of post_poll_one over the devices, each on its own state) and, from C07/C10, that each device's invariant and FIFO equation hold
-   whatever the other devices do.  Missing: (1) post_poll_one's result does not depend on the time-out accumulated by earlier devices
-   (it only takes minima), (2) the statements of device i read and write only Args of nodes mapped to i's plugs, so the shared ArgList
-   cannot carry information between devices with disjoint nodes.  Both are visible in the code (upd_tmo; arg_find / arg_update by node name)
-   but the relational proof over the nine statement handlers is not done.  The differential pmsim monitor (same history with device d
-   healthy vs sick) searches for a counter-example on the implementation. *)
+(* C05_noninterference is proved (second pass) from the two lemmas that were missing: C05_tmo_independent (a device only ever LOWERS the
+   time-out handed in; its own result never depends on it), C05_store_local_reads / _writes (a device reads and writes only Args of nodes
+   mapped to its own plugs), C05_pass_tmo_is_min (the coupling that remains: the requested time-out is the minimum of the per-device wishes). *)
+(* OPEN *) (* C05_mixed (per-node results of a request spanning a healthy and a sick device) and C05_concurrent are consequences at the client
+   layer (Model/Client.v, Model/Daemon.v) of C05_noninterference + C02/C03 and are not stated here; the pmsim monitors `mixed` and the
+   time-stamp differential of props/C05.py search for counter-examples on the implementation. *)
 From Coq Require Import List NArith ZArith Bool Lia.
 From PM Require Import Base.Bytes Base.Outcome Base.Dec Gen.GenConsts Gen.GenCbuf Model.ScriptAst Model.Enqueue Model.Script Model.Device
-  Model.DevHarness Proofs.DeviceProofs Proofs.DeviceStmt Proofs.DeviceInv Proofs.DeviceRun Proofs.DeviceTimer Proofs.DeviceLocal Proofs.DeviceThms.
+  Model.DevHarness Proofs.DeviceProofs Proofs.DeviceStmt Proofs.DeviceStmtG Proofs.DeviceInv Proofs.DeviceInvG Proofs.DeviceRun Proofs.DeviceRunG Proofs.DeviceTimer
+  Proofs.DeviceLocal Proofs.DeviceThms Proofs.DeviceNI Proofs.DeviceMask Proofs.DeviceNonint.
 Import ListNotations.
 Local Open Scope Z_scope.
 
@@ -49,6 +48,77 @@ Qed.
 Print Assumptions C05_dev_local.
 
 
+(* (1) the time-out accumulated by the devices visited earlier in the pass is only ever LOWERED: one device's share of dev_post_poll, run with
+   time-out t, is its run with NO time-out with the resulting wish w replaced by min(t, w) (tmin).  New device state, arg store, events,
+   outcome: all independent of t. *)
+Theorem C05_tmo_independent : forall (rmatch : text -> text -> option pmatch) (compress : list text -> text) (sc : bool) now d store t pin,
+  post_poll_one rmatch compress sc now d store t pin = lift_pp t (post_poll_one rmatch compress sc now d store None pin).
+Proof.
+  exact post_poll_one_tmo_indep.
+Qed.
+Print Assumptions C05_tmo_independent.
+
+(* the time-out a pass requests is the minimum (fold of tmin, None = infinity) of the per-device wishes, each computed by the device from its
+   own state, far end, the clock and the store handed on by the devices before it *)
+Theorem C05_pass_tmo_is_min : forall (rmatch : text -> text -> option pmatch) (compress : list text -> text) (sc : bool) l now i store t l' store' t' evs,
+  pass_devs rmatch compress sc now i l store t = Ok (l', store', t', evs) -> t' = fold_left tmin (wishes rmatch compress sc now l store) t.
+Proof.
+  exact pass_tmo_min.
+Qed.
+Print Assumptions C05_pass_tmo_is_min.
+
+(* (2) the shared ArgLists cannot couple devices with disjoint node sets.  [hid] marks node names; mask_store resets every Arg of a marked
+   node to its initial value.  A device NONE of whose nodes is marked commutes with masking (it neither reads nor writes marked Args) ... *)
+Theorem C05_store_local_reads : forall (hid : text -> bool) (rmatch : text -> text -> option pmatch) (compress : list text -> text) (sc : bool) now d st t pin,
+  visible hid (sd_plugs (dv d)) -> DInvG compress d -> tmo_pos t -> 0 <= dv_retry_count d ->
+  post_poll_one rmatch compress sc now d (mask_store hid st) t pin = map_pp (mask_store hid) (post_poll_one rmatch compress sc now d st t pin).
+Proof.
+  exact post_poll_one_vis.
+Qed.
+Print Assumptions C05_store_local_reads.
+
+(* ... and a device ALL of whose nodes are marked is invisible under masking (it writes marked Args only) *)
+Theorem C05_store_local_writes : forall (hid : text -> bool) (rmatch : text -> text -> option pmatch) (compress : list text -> text) (sc : bool) now d st t pin d' st' t' evs,
+  hidden hid (sd_plugs (dv d)) -> DInvG compress d -> tmo_pos t -> 0 <= dv_retry_count d ->
+  post_poll_one rmatch compress sc now d st t pin = Ok (d', st', t', evs) -> mask_store hid st' = mask_store hid st.
+Proof.
+  exact post_poll_one_hid.
+Qed.
+Print Assumptions C05_store_local_writes.
+
+(* NONINTERFERENCE over op lists.  j = the sick device, hid = its nodes.  orel: the two op lists are equal except for operations on device j's
+   far end (HFeed j / HPeerClose j / HPlan j / HFinish j: what the device sends, when it closes, how it answers connects) inserted anywhere in
+   either list.  hrel: same clock, every device other than j IDENTICAL (state and far end: queue, buffers, connect state, retry fields, bytes
+   written so far, pending input), device j with the same static configuration, stores equal on every Arg of a node that is not j's.
+   hok: every device satisfies the invariant, j's nodes are marked and no other device has a marked node (C13: the node-to-plug map is
+   injective).  Then after the two runs the states are again related (so: after EVERY op, by prefix closure) and every device other than j
+   produced exactly the same events (completions with codes and texts, telemetry, diagnostics, bytes sent / written / read, connects).
+   The only coupling is the requested time-out (C05_pass_tmo_is_min; pass_devs_sim: the wishes of the devices other than j are equal). *)
+Theorem C05_noninterference : forall (rmatch : text -> text -> option pmatch) (compress : list text -> text) (sc : bool) (j : nat) (hid : text -> bool)
+    (ops1 ops2 : list hop), orel j ops1 ops2 -> forall h1 h2 h1' outs1 h2' outs2,
+  hrel j hid h1 h2 -> hok compress j hid h1 -> hok compress j hid h2 ->
+  run rmatch compress sc h1 ops1 = Ok (h1', outs1) -> run rmatch compress sc h2 ops2 = Ok (h2', outs2) ->
+  hrel j hid h1' h2' /\ hok compress j hid h1' /\ hok compress j hid h2' /\ forall k, k <> j -> all_evs k outs1 = all_evs k outs2.
+Proof.
+  exact noninterference.
+Qed.
+Print Assumptions C05_noninterference.
+
+(* one pass, with the wishes exposed: related device lists and stores give related results, identical events and identical wishes for every
+   device other than j *)
+Theorem C05_pass_noninterference : forall (rmatch : text -> text -> option pmatch) (compress : list text -> text) (sc : bool) (j : nat) (hid : text -> bool)
+    l1 l2 now i st1 st2 t1 t2 l1' st1' t1' e1 l2' st2' t2' e2,
+  lrel j i l1 l2 -> lok compress j hid i l1 -> lok compress j hid i l2 -> mask_store hid st1 = mask_store hid st2 -> tmo_pos t1 -> tmo_pos t2 ->
+  pass_devs rmatch compress sc now i l1 st1 t1 = Ok (l1', st1', t1', e1) ->
+  pass_devs rmatch compress sc now i l2 st2 t2 = Ok (l2', st2', t2', e2) ->
+  lrel j i l1' l2' /\ lok compress j hid i l1' /\ lok compress j hid i l2' /\ mask_store hid st1' = mask_store hid st2' /\
+  (forall k, k <> j -> evs_of k e1 = evs_of k e2) /\
+  (forall k, (i + k)%nat <> j -> nth_error (wishes rmatch compress sc now l1 st1) k = nth_error (wishes rmatch compress sc now l2 st2) k).
+Proof.
+  exact pass_devs_sim.
+Qed.
+Print Assumptions C05_pass_noninterference.
+
 (* non-vacuity: a device with a login and an `on` script, run through a history with a time-out *)
 Definition ex_rmatch : text -> text -> option pmatch := fun _ _ => None.
 Definition ex_compress : list text -> text := fun _ => [].
@@ -64,3 +134,50 @@ Example C05_example :
   exists h', hstep ex_rmatch ex_compress false (mkH 0 [(ex_dev, peer0); (ex_dev, peer0)] []) (HFeed 1 (bslit "x")) = Ok (h', out0) /\
     nth_error (h_devs h') 0 = Some (ex_dev, peer0).
 Proof. vm_compute. eexists. split; reflexivity. Qed.
+
+(* non-vacuity of C05_noninterference: two devices with disjoint nodes (n1 / n2), device 1 sick: the start state satisfies hok and hrel,
+   and two histories that differ in what device 1's far end does give device 0 the same (non-empty) events *)
+Definition ex_dev1 : device :=
+  mk_device (bslit "d1") [mkPlug (bslit "p1") (Some (bslit "n2"))]
+            [(PM_LOG_IN, [Send (bslit "login\n"); Expect (bslit "ok")]); (PM_POWER_ON, [Send (bslit "on %s\n"); Expect (bslit "done")])] 5000000 0.
+Definition ex_hid : text -> bool := fun n => text_eqb n (bslit "n2").
+Definition ex_h2 : hstate := mkH 0 [(ex_dev, peer0); (ex_dev1, peer0)] [].
+Lemma ex_cfg_ok : forall d, d = ex_dev \/ d = ex_dev1 -> cfg_ok ex_compress d.
+Proof.
+  intros d Hd. split; [destruct Hd as [-> | ->]; eexists; reflexivity|]. intros i s H.
+  assert (G : forall pl (l : text), (forall ps, opt_incl ps pl -> exists str, hsprintf1 l (send_arg ex_compress (new_ctx [] ps)) = Some str /\ (length str <= Z.to_nat MAX_DEV_BUF)%nat) -> fmt_ok ex_compress pl l) by (intros pl l X; exact X).
+  assert (Hs : (s = [Send (bslit "login\n"); Expect (bslit "ok")] \/ s = [Send (bslit "on %s\n"); Expect (bslit "done")]) /\ exists nd, sd_plugs (dv d) = [mkPlug (bslit "p1") (Some nd)]).
+  { destruct Hd as [-> | ->]; cbn [dv_scripts ex_dev ex_dev1 mk_device assoc_script] in H;
+      (split; [destruct (Z.eqb i PM_LOG_IN); [injection H as <-; now left|destruct (Z.eqb i PM_POWER_ON); [injection H as <-; now right|discriminate H]]|eexists; reflexivity]). }
+  destruct Hs as [[-> | ->] [nd Hp]]; rewrite Hp; (split; [discriminate|]); (constructor; [|constructor; [exact Logic.I|constructor]]); cbn [wf_stmt]; apply G.
+  - intros ps _. eexists. split; [vm_compute; reflexivity|cbn [length]; unfold MAX_DEV_BUF; lia].
+  - intros [[|p [|q r]]|] Hi.
+    + eexists. split; [vm_compute; reflexivity|cbn [length]; unfold MAX_DEV_BUF; lia].
+    + assert (p = mkPlug (bslit "p1") (Some nd)) by (destruct (Hi p (or_introl eq_refl)) as [<-|[]]; reflexivity). subst p.
+      eexists. split; [vm_compute; reflexivity|cbn [length]; unfold MAX_DEV_BUF; lia].
+    + eexists. split; [vm_compute; reflexivity|cbn [length]; unfold MAX_DEV_BUF; lia].
+    + eexists. split; [vm_compute; reflexivity|cbn [length]; unfold MAX_DEV_BUF; lia].
+Qed.
+Example C05_noninterference_hyps : hok ex_compress 1 ex_hid ex_h2 /\ hrel 1 ex_hid ex_h2 ex_h2.
+Proof.
+  split.
+  - unfold hok, ex_h2. cbn [h_devs]. constructor; [apply (mk_device_invG ex_compress), ex_cfg_ok; now left| |constructor; [apply (mk_device_invG ex_compress), ex_cfg_ok; now right| |constructor]].
+    + intros p n [<-|[]] Hn. injection Hn as <-. reflexivity.
+    + intros p n [<-|[]] Hn. injection Hn as <-. reflexivity.
+  - split; [reflexivity|]. split; [apply lrel_refl|reflexivity].
+Qed.
+Definition ex_ops_a : list hop :=
+  [HNow 1000000; HPlan 0 [ConnNow; ConnNow]; HPlan 1 [ConnNow]; HPass; HNewArgs [bslit "n1"; bslit "n2"]; HEnq PM_POWER_ON 7 true 0 [bslit "n1"; bslit "n2"]; HPass;
+   HNow 7000000; HPass].
+Definition ex_ops_b : list hop :=
+  [HNow 1000000; HPlan 0 [ConnNow; ConnNow]; HPlan 1 [ConnFail; ConnFail]; HPass; HFeed 1 (bslit "\000junk"); HNewArgs [bslit "n1"; bslit "n2"]; HEnq PM_POWER_ON 7 true 0 [bslit "n1"; bslit "n2"]; HPeerClose 1; HPass;
+   HNow 7000000; HPass].
+Example C05_noninterference_example :
+  orel 1 ex_ops_a ex_ops_b /\
+  exists ha oa hb ob, run ex_rmatch ex_compress false ex_h2 ex_ops_a = Ok (ha, oa) /\ run ex_rmatch ex_compress false ex_h2 ex_ops_b = Ok (hb, ob) /\
+    all_evs 0 oa = all_evs 0 ob /\ completions (all_evs 0 oa) = [7] /\ all_evs 1 oa <> all_evs 1 ob.
+Proof.
+  split.
+  - unfold ex_ops_a, ex_ops_b. repeat first [ apply orel_nil | apply orel_both; [first [exact Logic.I | (vm_compute; auto 20)]|] | (apply orel_left; [reflexivity|]) | (apply orel_right; [reflexivity|]) ].
+  - vm_compute. eexists _, _, _, _. repeat split. discriminate.
+Qed.
